@@ -12,9 +12,9 @@ SPEC = {'level': 'exploration',
  'stages': [{'kind': 'gen',
              'binary': 'vh_c17',
              'target': 'c17_blockstore',
-             'cases_quick': 450,
+             'cases_quick': 900,
              'cases_thorough': 16000,
-             'min_cases_quick': 150,
+             'min_cases_quick': 250,
              'floors': {'multi-file': 0.3, 'reorg': 0.15, 'fault-magic': 0.08, 'fault-length': 0.08, 'fault-header': 0.08, 'fault-tx': 0.08,
                         'fault-undo-body': 0.05, 'fault-undo-checksum': 0.05, 'fault-truncate': 0.05, 'corrupt-fork-not-connected': 0.05, 'restart': 0.15, 'undo-written-after-restart': 0.12, 'precious-reorg': 0.05, 'flush': 0.15},
              'rule': 'block/undo write histories + raw-file faults; non-trivial = records in >=2 block files + undo written after a reorg + >=2 fault regions hit'},
